@@ -207,8 +207,15 @@ func init() {
 			}
 		}
 		readers := t.WRange(1, 3)
+		if t.WBool(1, 6) {
+			readers = 1
+		}
+		workers := t.WRange(1, 3)
+		if readers == 1 && t.WBool(1, 2) {
+			workers = 1
+		}
 		flags := []string{"--nocolor", "filter", "-e", "{src}:{line}:{0}", "--readers", strconv.Itoa(readers), "--batch", strconv.Itoa([]int{1, 2, 3, 1000}[t.W(4)]),
-			"--workers", strconv.Itoa(t.WRange(1, 3)), "--batch-buffer", strconv.Itoa(t.WRange(1, 4))}
+			"--workers", strconv.Itoa(workers), "--batch-buffer", strconv.Itoa(t.WRange(1, 4))}
 		if gunzip {
 			flags = append(flags, "-z")
 		}
@@ -507,6 +514,20 @@ func init() {
 		}
 		for p, n := range opens {
 			rc.Violate("open-unexpected", "%s was opened %d times but is not among the inputs\n%s", p, n, desc)
+		}
+		// one reader and one worker: what is printed, and in which order, is a function of the command line and the files -
+		// whatever the goroutines that expand the arguments, read and match do in between. The same command under another
+		// schedule must print the same bytes (no assumption about which order that is)
+		if readers == 1 && workers == 1 && !useStdin && len(mentions) >= 2 && len(rc.Viol) == 0 && faultPath == "" {
+			s2 := rc.NewSim(c06Opts)
+			s2.FS.Default = legal
+			res2 := runCLI(rc, s2, append(flags, args...))
+			rc.Absorb(s2)
+			if rc.StdEnd(s2, "termination") && !bytes.Equal(res.Stdout, res2.Stdout) {
+				a, b := strings.Split(string(res.Stdout), "\n"), strings.Split(string(res2.Stdout), "\n")
+				rc.Violate("order-not-deterministic", "one reader, one worker: the same command printed its lines in two different orders under two schedules (%d and %d lines); first difference: %s\n%s", len(a)-1, len(b)-1, firstDiff(a, b), desc)
+			}
+			rc.Probes["one-reader-one-worker-repeated"]++
 		}
 		if anyFail {
 			rc.Probes["runs-with-failing-input"]++
